@@ -45,7 +45,7 @@ pub mod util {
     pub type FileServerHandle = usize;
     #[verifier::external_body]
     pub struct SymbolContext { _p: u8 }
-    //@@INCLUDE _shared/util_bigint_spec_min.rs
+    //@@INCLUDE _shared/util_bigint_spec.rs
     //@@INCLUDE _shared/util_bigint_cmp.rs
     //@@ITEMS util
     }
